@@ -216,6 +216,7 @@ func checkC07(P *Prog, r *Result) {
 
 	// ---- release ----
 	P.checkRelease(r)
+	P.checkReleaseMultiplicity(r, "C07/release-multiplicity")
 	// ---- balance ----
 	P.checkBalance(r, "C07/balance")
 	// ---- no global state ----
@@ -661,4 +662,139 @@ func (P *Prog) checkBalance(r *Result, rule string) {
 		}
 	}
 	r.floor(rule, 4)
+}
+
+// checkReleaseMultiplicity: an issue is inserted into the issue map more than
+// once on one path of ErrsMap.Add (under the constant key $first and under
+// its own path). Every function that releases all elements of all lists of
+// such a map must skip the duplicate key, or the same object is put into the
+// pool twice and two later executions receive (and overwrite) one issue.
+func (P *Prog) checkReleaseMultiplicity(r *Result, rule string) {
+	R := P.roles
+	add := P.fn("(*zog/internals.ErrsMap).Add")
+	if add == nil {
+		r.broken("anchor ErrsMap.Add not found")
+		return
+	}
+	errP := ssa.Value(add.Params[2])
+	// constant keys under which the issue itself is stored
+	dupKeys := map[string]bool{}
+	eachInstr(add, func(_ *ssa.BasicBlock, _ int, in ssa.Instruction) {
+		mu, ok := in.(*ssa.MapUpdate)
+		if !ok {
+			return
+		}
+		k, isC := constString(mu.Key)
+		if !isC {
+			return
+		}
+		if sliceLitContains(mu.Value, errP) {
+			dupKeys[k] = true
+		}
+		if c, ok := mu.Value.(*ssa.Call); ok && callOf(c).builtin == "append" && len(c.Call.Args) == 2 && sliceLitContains(c.Call.Args[1], errP) {
+			dupKeys[k] = true
+		}
+	})
+	sums := P.releaseSummaries()
+	// functions that (transitively) release elements of a list argument
+	releasesElems := map[*ssa.Function]bool{}
+	for changed := true; changed; {
+		changed = false
+		for _, fn := range P.Funcs {
+			if releasesElems[fn] {
+				continue
+			}
+			eachInstr(fn, func(b *ssa.BasicBlock, _ int, in ssa.Instruction) {
+				ci := callOf(in)
+				if ci == nil || ci.static == nil {
+					return
+				}
+				if !inLoop(b) {
+					return
+				}
+				if sums[ci.static] != nil || releasesElems[ci.static] {
+					// the released / forwarded value must be an element of a parameter
+					for _, a := range ci.args() {
+						for _, rt := range P.rootsOf(a) {
+							if rt.kind == rkParam && rt.v.(*ssa.Parameter).Parent() == fn {
+								if _, isSlice := rt.v.Type().Underlying().(*types.Slice); isSlice {
+									if !releasesElems[fn] {
+										releasesElems[fn] = true
+										changed = true
+									}
+								}
+							}
+						}
+					}
+				}
+			})
+		}
+	}
+	n := 0
+	for _, fn := range P.Funcs {
+		for li, l := range mapRangeLoops(fn) {
+			mt, ok := l.rng.X.Type().Underlying().(*types.Map)
+			if !ok {
+				continue
+			}
+			// map[string][]*ZogIssue
+			sl, ok := mt.Elem().Underlying().(*types.Slice)
+			if !ok || !P.isPtrTo(sl.Elem(), R.ZogIssue) {
+				continue
+			}
+			// does the body release the elements of the visited list?
+			for b := range l.body {
+				for _, in := range b.Instrs {
+					ci := callOf(in)
+					if ci == nil || ci.static == nil || !(releasesElems[ci.static] || sums[ci.static] != nil) {
+						continue
+					}
+					usesVal := false
+					for _, a := range ci.args() {
+						if valueDerivesFrom(a, l.val, 4) {
+							usesVal = true
+						}
+					}
+					if !usesVal {
+						continue
+					}
+					n++
+					c := fmt.Sprintf("%s#range@%d→%s", fname(fn), li+1, fname(ci.static))
+					var missing []string
+					for k := range dupKeys {
+						skipped := false
+						for _, gd := range guardsOf(b) {
+							bo, ok := gd.If.Cond.(*ssa.BinOp)
+							if !ok {
+								continue
+							}
+							var other ssa.Value
+							if valueDerivesFrom(bo.X, l.key, 4) {
+								other = bo.Y
+							} else if valueDerivesFrom(bo.Y, l.key, 4) {
+								other = bo.X
+							}
+							if s, isS := constString(other); isS && s == k {
+								if (bo.Op == token.NEQ && gd.True) || (bo.Op == token.EQL && !gd.True) {
+									skipped = true
+								}
+							}
+						}
+						if !skipped {
+							missing = append(missing, k)
+						}
+					}
+					sort.Strings(missing)
+					if len(missing) > 0 {
+						r.bad(rule, c, P.ipos(in), fmt.Sprintf("every list of the issue map is released, but ErrsMap.Add files each first issue both under its path and under %v: that issue is put into the pool twice, so two later executions receive the same *ZogIssue and the second overwrites the first one's result", missing))
+					} else {
+						r.ok(rule, c, P.ipos(in), fmt.Sprintf("the duplicate key(s) %v of the issue map are skipped when releasing", sortedKeys(dupKeys)))
+					}
+				}
+			}
+		}
+	}
+	r.Extra["issue_map_duplicate_keys"] = sortedKeys(dupKeys)
+	r.floor(rule, 1)
+	_ = n
 }
